@@ -42,7 +42,7 @@ CANON = re.compile(r"\A(0|[1-9][0-9]*)\Z")
 
 
 def plan(tier, seed):
-    n, stores = (4, 6) if tier == "quick" else (16, 25)
+    n, stores = (4, 6) if tier == "quick" else (32, 80)
     return [{"backend": b, "case_seed": seed * 7919 + i, "stores": stores} for b in ("sql", "lmdb") for i in range(n)]
 
 
